@@ -26,7 +26,8 @@
 (* A configuration c is a record                                            *)
 (*   mpath    : the directory scanned (module_path), a member of P.dirs      *)
 (*   excluded : entries (dirs / files) DIRECTLY matched by an exclusion      *)
-(*   limit    : 0 = no level limit, k > 0 = level_limit k                    *)
+(*   limit    : 0 = no level limit, k + 1 = level_limit k  (level_limit 0 is  *)
+(*              legal: everything is truncated to module_path itself)         *)
 (*   ext      : TRUE = external libraries included                           *)
 (*   extexcl  : external module names directly matched by an external        *)
 (*              exclusion pattern (only meaningful when ext)                 *)
@@ -110,8 +111,8 @@ RestrictArch(A, sub) == [modules |-> {m \in A.modules : Related(sub, m)},
 \* C08: what an exclusion removes: the names of entries that are not visible any more
 Removed(P, c0, c1) == Scanned(P, c0) \ Scanned(P, c1)
 
-\* C09: level_limit k on a scan of mpath keeps Len(mpath) + k components of every name
-KeepLen(c) == Len(c.mpath) + c.limit
+\* C09: level_limit k on a scan of mpath keeps Len(mpath) + k components of every name (c.limit = k + 1)
+KeepLen(c) == Len(c.mpath) + c.limit - 1
 Quotient(A, n) == [modules |-> {Trunc(m, n) : m \in A.modules},
                    imports |-> {<<Trunc(e[1], n), Trunc(e[2], n)>> : e \in {e \in A.imports : Trunc(e[1], n) # Trunc(e[2], n)}}]
 
